@@ -151,7 +151,8 @@ func (t *TempoController) Tags(w http.ResponseWriter, r *http.Request) {
 		if i != 0 {
 			w.Write([]byte(","))
 		}
-		w.Write([]byte(strconv.Quote(tag)))
+		bTag, _ := json.Marshal(tag)
+		w.Write(bTag)
 		i++
 	}
 	w.Write([]byte("]}"))
@@ -306,13 +307,15 @@ func (t *TempoController) Values(w http.ResponseWriter, r *http.Request) {
 		if i != 0 {
 			w.Write([]byte(","))
 		}
-		w.Write([]byte(strconv.Quote(val)))
+		bVal, _ := json.Marshal(val)
+		w.Write(bVal)
 		i++
 	}
 	w.Write([]byte(`]}`))
 }
 
 func (t *TempoController) Search(w http.ResponseWriter, r *http.Request) {
+	defer tamePanic(w, r)
 	internalCtx, err := RunPreRequestPlugins(r)
 	if err != nil {
 		PromError(500, err.Error(), w)
